@@ -4,6 +4,7 @@ import (
 	"context"
 	"errors"
 	"fmt"
+	"math"
 	"sync"
 	"testing"
 	"time"
@@ -40,6 +41,9 @@ type C20Case struct {
 	// it), every setting overwritten, and the context comes from the copy's NeatContext(); "nested" = the context handed to
 	// neat.NewContext already carries other options
 	CtxKind string `json:"context_kind,omitempty"` // pre-sized record longer than the configured number of trials (an experiment value used before with more runs)
+	// ObserverReads: the observer looks at the running experiment through its read-only accessors when a trial finishes
+	// (progress reporting)
+	ObserverReads bool `json:"observer_reads_experiment,omitempty"`
 	// ObserverByValue: the observer is a field-less struct handed over by value (a stateless logging observer), not a pointer
 	ObserverByValue bool `json:"observer_by_value,omitempty"`
 	// MaxFitnessScore of the experiment value (a scale for the efficiency score, not a stopping rule); the evaluation's
@@ -57,6 +61,7 @@ func GenC20() *rapid.Generator[C20Case] {
 			Observer: rapid.IntRange(0, 3).Draw(t, "observer") != 0, PreSized: rapid.Bool().Draw(t, "presized"), Parallel: rapid.IntRange(0, 3).Draw(t, "parallel") == 0,
 			PopSize: rapid.IntRange(3, 8).Draw(t, "pop size"), Seed: int64(rapid.IntRange(0, 1<<30).Draw(t, "seed"))}
 		c.ObserverByValue = c.Observer && rapid.IntRange(0, 3).Draw(t, "observer by value") == 0
+		c.ObserverReads = c.Observer && rapid.IntRange(0, 2).Draw(t, "observer reads") == 0
 		if rapid.IntRange(0, 3).Draw(t, "max fitness score") == 0 {
 			c.MaxFitnessScore = float64(rapid.IntRange(1, 12).Draw(t, "score"))
 		}
@@ -93,6 +98,21 @@ func GenC20() *rapid.Generator[C20Case] {
 		if c.Fault != "none" {
 			c.FaultTrial = rapid.IntRange(0, c.Trials-1).Draw(t, "fault trial")
 			c.FaultGen = rapid.IntRange(0, c.Generations-1).Draw(t, "fault generation")
+		}
+		if c.Generations > 0 && c.Trials > 0 && rapid.IntRange(0, 9).Draw(t, "run until solved") == 4 {
+			// "run until solved": the configured maximum is the largest int, every trial is solved early
+			for i := range c.SolvedAt {
+				if c.SolvedAt[i] < 0 {
+					c.SolvedAt[i] = i % 3
+				}
+			}
+			if c.Fault != "none" && c.FaultGen > c.SolvedAt[c.FaultTrial] {
+				c.FaultGen = c.SolvedAt[c.FaultTrial]
+			}
+			if c.Prior && c.PriorSolvedAt < 0 {
+				c.PriorSolvedAt = 1
+			}
+			c.Generations = math.MaxInt
 		}
 		return c
 	})
@@ -165,6 +185,7 @@ type protoRecorder struct {
 	trace   []protoEvent
 	problem string // first protocol violation observed inside a callback
 	// state of the current trial
+	exp        *experiment.Experiment
 	pop        *genetics.Population
 	pops       map[*genetics.Population]int
 	lastOrgs   map[*genetics.Organism]bool
@@ -259,6 +280,13 @@ func (r *protoRecorder) TrialRunStarted(trial *experiment.Trial) {
 
 func (r *protoRecorder) TrialRunFinished(trial *experiment.Trial) {
 	r.trace = append(r.trace, protoEvent{kind: "finish", trial: trial.Id, gen: len(trial.Generations) - 1})
+	if r.c.ObserverReads && r.exp != nil {
+		_ = r.exp.MostRecentTrialEvalTime()
+		_ = r.exp.TrialsSolved()
+		_ = r.exp.SuccessRate()
+		_ = r.exp.Solved()
+		_ = r.exp.AvgTrialDuration()
+	}
 }
 
 func (r *protoRecorder) EpochEvaluated(trial *experiment.Trial, epoch *experiment.Generation) {
@@ -340,7 +368,7 @@ func CheckC20(c C20Case, rec *Rec) error {
 	switch c.CtxKind {
 	case "copied":
 		used := defaultOpts()
-		used.PopSize, used.NumRuns, used.NumGenerations = 5, c.Trials+2, c.Generations+3
+		used.PopSize, used.NumRuns, used.NumGenerations = 5, c.Trials+2, c.Generations%1000+3
 		u := used.Build()
 		_, _ = genetics.NewPopulation(xorStart().Build(), u)
 		_ = u.NeatContext()
@@ -350,7 +378,7 @@ func CheckC20(c C20Case, rec *Rec) error {
 		rec.Class("options copied from a used object, context from the copy")
 	case "nested":
 		outer := defaultOpts()
-		outer.PopSize, outer.NumRuns, outer.NumGenerations = 5, c.Trials+2, c.Generations+3
+		outer.PopSize, outer.NumRuns, outer.NumGenerations = 5, c.Trials+2, c.Generations%1000+3
 		ctx = neat.NewContext(neat.NewContext(ctx, outer.Build()), opts)
 		rec.Class("context that already carried other options")
 	default:
@@ -365,6 +393,10 @@ func CheckC20(c C20Case, rec *Rec) error {
 		}
 	}
 	var observer experiment.TrialRunObserver
+	r.exp = exp
+	if c.ObserverReads {
+		rec.Class("observer reads the running experiment through its accessors")
+	}
 	if c.Observer {
 		observer = r
 		if c.ObserverByValue {
@@ -403,6 +435,9 @@ func CheckC20(c C20Case, rec *Rec) error {
 	}
 	if c.Trials == 0 {
 		rec.Class("zero trials configured")
+	}
+	if c.Generations == math.MaxInt {
+		rec.Class("maximal number of generations configured (run until solved)")
 	}
 	if c.Observer {
 		rec.Class("with observer")
